@@ -25,6 +25,7 @@ import (
 //   drop-cert | restore-cert                            the TLS port is enabled without / with a certificate
 //   tracer-fails-once                                   a tracer is installed whose Start() fails the first time it is called
 //   clients=33|40|75                                    that many more clients connect and stay
+//   start-again                                         Start is called on the running server
 // Oracle: a lifecycle call returns within its time limit; when Start/Restart returns nil every port enabled by the
 // configuration at that moment is served; after Stop returns no port the server ever listened on is held by the
 // process, clients are closed, the registry is empty and no server goroutine remains. A Start/Restart that returns
@@ -140,7 +141,7 @@ func evalC15Cfg(c c15Cfg) *Failure {
 		return nil
 	}
 	running, dirty := false, false // dirty: a Start has failed since the last Stop
-	listenPlain := false           // the plain port was enabled when the server was last started (the configuration may have changed since)
+	listenPlain, listenTLS := false, false // the ports that were enabled when the server was last started (the configuration may have changed since)
 	for i, op := range c.Ops {
 		when := fmt.Sprintf("after op %d (%s)", i, op)
 		switch op {
@@ -169,7 +170,32 @@ func evalC15Cfg(c c15Cfg) *Failure {
 				continue
 			}
 			running = true
-			listenPlain = plainOn
+			listenPlain, listenTLS = plainOn, tlsOn
+			if fl := served(when); fl != nil {
+				return fl
+			}
+		case "start-again":
+			// Start on a server that is running: it may fail or succeed, but the promise of the earlier Start holds until Stop
+			if !running {
+				continue
+			}
+			err, fl := timed("start", srv.Start)
+			if fl != nil {
+				return fl
+			}
+			if err == nil {
+				listenPlain, listenTLS = plainOn, tlsOn
+			} else {
+				// the ports the running server listens on are the ones of its own Start
+				savedPlain, savedTLS := plainOn, tlsOn
+				plainOn, tlsOn = listenPlain, listenTLS
+				fl := served(when + " (which failed: " + firstLines(err.Error(), 1) + ")")
+				plainOn, tlsOn = savedPlain, savedTLS
+				if fl != nil {
+					return fl
+				}
+				continue
+			}
 			if fl := served(when); fl != nil {
 				return fl
 			}
